@@ -202,7 +202,7 @@ func genCase(t *rapid.T, p Profile) Case {
 }
 
 func baseWeights() map[int]int {
-	return map[int]int{opBegin: 2, opInsert: 7, opInsertWatch: 1, opModify: 2, opDelete: 3, opDeleteAll: 1, opCAS: 2, opCAD: 2, opCommit: 5, opAbort: 2, opBulkInsert: 1, opBulkDelete: 1}
+	return map[int]int{opBegin: 2, opInsert: 7, opInsertWatch: 1, opModify: 2, opDelete: 3, opDeleteAll: 1, opCAS: 2, opCAD: 2, opCommit: 5, opAbort: 2, opBulkInsert: 1, opBulkDelete: 1, opNewTable: 1}
 }
 
 func with(w map[int]int, extra map[int]int) map[int]int {
